@@ -7,7 +7,7 @@ from contracts import dr as D
 
 def units(tier):
     us = [Unit(F.Reopened, {'script': s}) for s in sorted(F.SCRIPTS) + F.random_names(tier)]
-    us += [Unit(F.ReopenedUDF, {'script': s}) for s in sorted(F.UDF_SCRIPTS)]
+    us += [Unit(F.ReopenedUDF, {'script': s}) for s in sorted(F.UDF_SCRIPTS) + F.random_udf_names(tier)]
     us += [Unit(H.VDCopy), Unit(H.AddToPtrSize, {'remove': False}), Unit(H.AddToPtrSize, {'remove': True})]
     # edits rely on the cached per-child positions / indices being rebuilt from the edit point on, whatever they held before
     us += [Unit(D.RecalcStep)] + [Unit(D.RecalcWhole, {'n': 3, 'index': i}) for i in (0, 1, 2)]
